@@ -116,6 +116,53 @@ def snap(p: P, max_den=10**6, tol=1e-11):
 
 
 def read_callable(f, dim):
+    """The polynomial a tabulated callable computes.  First choice: the callable is run on the generators of the polynomial ring
+    (exact).  A callable written with array functions the ring does not support (np.divide, np.where, ...) is not wrong for
+    that: it is then sampled at generic points and the polynomial is recovered by a least-squares fit on the monomials of
+    degree <= FIT_DEG per variable; the fit must reproduce fresh samples to 1e-10, otherwise the callable is not such a
+    polynomial at generic points and NotPolynomial is raised (the caller decides what that means)."""
     gens = [P.var(i) for i in range(dim)]
-    r = f(*gens)
-    return P.lift(r)
+    try:
+        return P.lift(f(*gens))
+    except (TypeError, ValueError, AttributeError, NotImplementedError, ZeroDivisionError):
+        return fit_callable(f, dim)
+
+
+class NotPolynomial(Exception):
+    pass
+
+
+FIT_DEG = {1: 6, 2: 4, 3: 3}
+_FIT_CACHE = {}
+
+
+def _fit_basis(dim):
+    import itertools
+
+    import numpy as np
+
+    if dim not in _FIT_CACHE:
+        deg = FIT_DEG[dim]
+        exps = list(itertools.product(range(deg + 1), repeat=dim))
+        rng = np.random.default_rng(12345 + dim)
+        pts = rng.uniform(-0.93, 0.97, (4 * len(exps), dim))   # generic points: none of them is a node, a mid-side or a Gauss point
+        V = np.stack([np.prod(pts ** np.array(e), axis=1) for e in exps], axis=1)
+        _FIT_CACHE[dim] = (exps, pts, V, np.linalg.pinv(V[: 3 * len(exps)]))
+    return _FIT_CACHE[dim]
+
+
+def fit_callable(f, dim):
+    import numpy as np
+
+    exps, pts, V, pinv = _fit_basis(dim)
+    vals = np.array([float(np.asarray(f(*[float(c) for c in x]))) for x in pts])
+    n = pinv.shape[1]
+    coef = pinv @ vals[:n]
+    scale = max(1.0, np.abs(vals).max())
+    if np.abs(V[n:] @ coef - vals[n:]).max() > 1e-10 * scale:
+        raise NotPolynomial(f"the callable is not a polynomial of degree <= {FIT_DEG[dim]} per variable at generic points (misfit {np.abs(V[n:] @ coef - vals[n:]).max():.3g})")
+    out = P()
+    for e, c in zip(exps, coef):
+        if abs(c) > 1e-12 * scale:
+            out.t[tuple(e) + (0,) * (3 - len(e))] = Fraction(float(c)).limit_denominator(10**9)
+    return out
